@@ -293,9 +293,29 @@ var quiet = func() *logrus.Logger {
 	return l
 }()
 
+// realName is the metric name a series id stands for in the real run.  Names reach the aggregator from the lexer
+// (ASCII letters, digits, `_-.`), but also unsanitised from the HTTP ingestion endpoint, from a merged map and
+// through the namespace setting: the case picks one of four styles.
+func realName(sid string, style int) string {
+	switch style % 4 {
+	case 1:
+		return "svc." + sid + ".latency_ms"
+	case 2:
+		return "caf\u00e9." + sid + ".na\u00efve"
+	case 3:
+		return sid + " sp/ace\xff\x80|x:y#z,@" + sid
+	}
+	return sid
+}
+
+func (h *c04Head) nameStyle() int { return len(h.Order) + int(h.Limit%7) + h.Batch }
+
 func renderView(mm *gostatsd.MetricMap, tagsKeyToSid map[string]string) string {
 	es := []string{}
 	mm.Timers.Each(func(name, tagsKey string, t gostatsd.Timer) {
+		if sid, ok := tagsKeyToSid["\x00name\x00"+name]; ok {
+			name = sid
+		}
 		es = append(es, name+":"+aggx.RenderTimer(t))
 	})
 	if len(es) == 0 {
@@ -345,7 +365,11 @@ func runOne(line string) (out string) {
 			return false
 		}
 		agg.Process(func(mm *gostatsd.MetricMap) {
-			views = append(views, renderView(mm, nil))
+			back := map[string]string{}
+			for _, sid := range head.Order {
+				back["\x00name\x00"+realName(sid, head.nameStyle())] = sid
+			}
+			views = append(views, renderView(mm, back))
 			done := make(chan struct{})
 			var once sync.Once
 			func() {
@@ -388,7 +412,7 @@ func runOne(line string) (out string) {
 			if len(it) != 4 {
 				return "BAD_CASE"
 			}
-			batch.Receive(aggx.TimerMetric(it[1], head.Series[it[1]], hx.MustUnF(it[2]), hx.MustUnF(it[3])))
+			batch.Receive(aggx.TimerMetric(realName(it[1], head.nameStyle()), head.Series[it[1]], hx.MustUnF(it[2]), hx.MustUnF(it[3])))
 		case "m":
 			hand()
 		case "f":
